@@ -81,6 +81,9 @@ class Ctx:
         os.makedirs(os.path.join(VERIF, 'replays'), exist_ok=True)
         os.makedirs(os.path.join(VERIF, 'evidence'), exist_ok=True)
         os.makedirs(os.path.join(BUILD, 'cases'), exist_ok=True)
+        import glob
+        for f in glob.glob(os.path.join(VERIF, 'replays', pid + '_*.json')):
+            os.remove(f)
 
     @property
     def quick(self):
